@@ -449,6 +449,48 @@ func genNested(c *hc.Ctx) c20ops.Op {
 	}
 }
 
+var ltrWords = []string{"Hello", "world", "office", "AVATAR", "fi", "Tj", "Wavy", "lorem", "ipsum"}
+var rtlWords = []string{"שלום", "עולם", "سلام", "مرحبا", "אב"}
+
+// genRich: layouts whose shaping result is post-processed by ToText (cluster offsets of later runs,
+// reversal of right-to-left runs, vertical offsets): multi-face rich texts, RTL and mixed-direction
+// texts, vertical writing modes, and a single word laid out after a multi-run text that contains it.
+func genRich(c *hc.Ctx) []c20ops.Op {
+	w := func(l []string) string { return l[c.Intn(len(l))] }
+	size := float64(10 + 2*c.Intn(3))
+	mk := func(mode int, runs ...string) c20ops.Op {
+		width := 0.0
+		if c.Chance(0.3) {
+			width = float64(15 + c.Intn(30))
+		}
+		return c20ops.Op{Kind: "RichText", S: strings.Join(runs, "\x1f"), F: []float64{size, float64(mode), width, 0, float64(c.Intn(3))}}
+	}
+	switch c.Intn(6) {
+	case 0:
+		c.Count("rich:two-faces")
+		return []c20ops.Op{mk(0, "0:"+w(ltrWords)+" ", "1:"+w(ltrWords))}
+	case 1:
+		c.Count("rich:three-faces")
+		return []c20ops.Op{mk(0, "0:"+w(ltrWords)+" ", "2:"+w(ltrWords)+" ", "1:"+w(ltrWords))}
+	case 2:
+		c.Count("rich:rtl")
+		if c.Bool() {
+			return []c20ops.Op{mk(0, "0:"+w(rtlWords))}
+		}
+		return []c20ops.Op{mk(0, "0:"+w(ltrWords)+" "+w(rtlWords)+" "+w(rtlWords)+" "+w(ltrWords))}
+	case 3:
+		c.Count("rich:vertical")
+		return []c20ops.Op{mk(1+c.Intn(2), "0:"+w(ltrWords))}
+	case 4:
+		c.Count("rich:vertical-two-faces")
+		return []c20ops.Op{mk(1+c.Intn(2), "0:"+w(ltrWords)+" ", "1:"+w(ltrWords))}
+	default:
+		c.Count("rich:word-after-containing-text")
+		word := w(ltrWords)
+		return []c20ops.Op{mk(0, "0:"+w(ltrWords)+" ", "1:"+word), mk(0, "1:"+word)}
+	}
+}
+
 func genBatch(c *hc.Ctx, n int) []c20ops.Op {
 	ops := []c20ops.Op{{Kind: "SharedFontState"}}
 	var pool []hc.P2
@@ -463,8 +505,12 @@ func genBatch(c *hc.Ctx, n int) []c20ops.Op {
 		r := c.Float()
 		var op c20ops.Op
 		switch {
-		case r < 0.12:
+		case r < 0.10:
 			op = genNested(c)
+		case r < 0.20:
+			rs := genRich(c)
+			ops = append(ops, rs[:len(rs)-1]...)
+			op = rs[len(rs)-1]
 		case r < 0.40:
 			op = c20ops.Op{Kind: []string{"And", "Or", "Xor", "Not", "DivideBy"}[c.Intn(5)], A: poly(0, 0, 1, 2, 3, 4), B: poly(0, 0, 1, 2, 3, 4)}
 		case r < 0.50:
@@ -549,6 +595,16 @@ func determinism(c *hc.Ctx, env *c20ops.Env, ops []c20ops.Op) {
 	if len(ops) > 0 {
 		c.Sample(fmt.Sprintf("%v -> %s", opReplay(ops[0])["kind"], clip(base[0])))
 	}
+	// layouts: the reference is the call ALONE, i.e. with a freshly loaded copy of the font; the first
+	// run with the shared font above is judged against it like all later phases
+	fresh := append([]string(nil), base...)
+	for i, op := range ops {
+		if op.Kind == "RichText" {
+			fresh[i] = op.RunFresh(env)
+		}
+	}
+	compare(c, "first-run-shared-font-vs-fresh-font", ops, fresh, base)
+	base = fresh
 	// the same inputs again, in reverse order: regardless of what ran before
 	rev := make([]int, len(ops))
 	for i := range rev {
@@ -564,7 +620,7 @@ func determinism(c *hc.Ctx, env *c20ops.Env, ops []c20ops.Op) {
 	var nbase []string
 	for rep := 0; rep < 4; rep++ {
 		for i, op := range ops {
-			if op.Kind != "Render" && op.Kind != "TextBox" && op.Kind != "LoadFont" && op.Kind != "SharedFontState" && len(op.A) > 150 {
+			if op.Kind == "RichText" || op.Kind != "Render" && op.Kind != "TextBox" && op.Kind != "LoadFont" && op.Kind != "SharedFontState" && len(op.A) > 150 {
 				nested, nbase = append(nested, op), append(nbase, base[i])
 			}
 		}
@@ -708,7 +764,7 @@ func raceRun(c *hc.Ctx, d dirs, env *c20ops.Env, ops []c20ops.Op) {
 	}
 	nr := 0
 	for _, op := range ops[n:] { // distinct canvases with the ONE shared font, from several goroutines
-		if (op.Kind == "Render" || op.Kind == "TextBox") && nr < 24 {
+		if (op.Kind == "Render" || op.Kind == "TextBox") && nr < 24 || op.Kind == "RichText" {
 			batch = append(batch, op)
 			nr++
 		}
@@ -747,6 +803,11 @@ func raceRun(c *hc.Ctx, d dirs, env *c20ops.Env, ops []c20ops.Op) {
 		order[i] = i
 	}
 	base := c20ops.RunSeq(env, batch, order)
+	for i, op := range batch {
+		if op.Kind == "RichText" {
+			base[i] = op.RunFresh(env)
+		}
+	}
 	var got [][]string
 	if b, err := os.ReadFile(of); err == nil && json.Unmarshal(b, &got) == nil && len(got) == 2 && len(got[0]) == len(batch) {
 		// the race driver is another process with its own shared font: calls whose result depends on
